@@ -25,6 +25,8 @@ const prelude = `(set-option :produce-models true)
 (declare-fun sbyte ((_ BitVec 8)) Str)
 (declare-fun srune ((_ BitVec 32)) Str)
 (declare-fun str2bytes (Str) Str)
+(declare-fun sidx ((_ BitVec 64) (_ BitVec 64)) (_ BitVec 64))
+(assert (forall ((o (_ BitVec 64)) (i (_ BitVec 64))) (! (= (sidx o i) (bvadd o i)) :pattern ((sidx o i)))))
 (declare-const nilIface Iface)
 (declare-fun ityp (Iface) Int)
 (declare-const nilFn Fn)
